@@ -119,6 +119,23 @@ func structCover(name string, gen func(opts []cat.Opts, cb bool) []*cat.Catalog,
 		}}
 }
 
+// wideCover: the same family with a single Invoke per behaviour, which makes each catalog cheap,
+// over a sample several times larger (quick) or the whole family (thorough).
+func wideCover(name string, gen func(opts []cat.Opts, cb bool) []*cat.Catalog, opts []cat.Opts, cb bool, q, faults int) coverPlan {
+	return coverPlan{name: name + "-wide", bounds: Bounds{MaxInv: 1, MaxFaults: faults, FaultKinds: errKinds},
+		cats: func(seed int64, tier string) []*cat.Catalog {
+			return fam.Sample(gen(opts, cb), seed+17, scale(tier, q, 0))
+		}}
+}
+
+// libCover: catalogs built from the declared-function library (function identity matters).
+func libCover(name string, opts []cat.Opts, cb bool, q, t, faults int) coverPlan {
+	return coverPlan{name: name, bounds: Bounds{MaxInv: 2, MaxFaults: faults, FaultKinds: errKinds},
+		cats: func(seed int64, tier string) []*cat.Catalog {
+			return fam.LibFamily(seed, scale(tier, q, t), opts, cb)
+		}}
+}
+
 // digraphCover: the cycle family: digraphs on 3 constructors over a chain or fan tree.
 func digraphCover(name string, kind string, opts []cat.Opts, q, t int) coverPlan {
 	return coverPlan{name: name, bounds: Bounds{MaxInv: 1, MaxFaults: 0, FaultKinds: errKinds},
@@ -188,8 +205,9 @@ func init() {
 		run: genericRun(stagePlan{
 			covers: []coverPlan{
 				randCover("core", tweak(small, nogroups), recBoth, 60, 500, 1),
-				structCover("chain", fam.Chain, recBoth, false, 40, 0, 2, 1),
-				structCover("shadow", fam.Shadow, rec, false, 40, 0, 2, 0),
+				structCover("chain", fam.Chain, recBoth, false, 30, 0, 2, 1),
+				wideCover("chain", fam.Chain, recBoth, false, 250, 1),
+				structCover("shadow", fam.Shadow, rec, false, 30, 0, 2, 0),
 			},
 			traces: stdTraces("core", medium, 0.05, stdOpts)})})
 
@@ -202,8 +220,10 @@ func init() {
 		run: genericRun(stagePlan{
 			covers: []coverPlan{
 				randCover("once", small, recBoth, 60, 500, 1),
-				structCover("chain", fam.Chain, recBoth, false, 30, 0, 2, 1),
-				structCover("groups", fam.Groups, rec, false, 12, 0, 2, 1),
+				structCover("chain", fam.Chain, recBoth, false, 25, 0, 2, 1),
+				wideCover("chain", fam.Chain, recBoth, false, 250, 1),
+				structCover("groups", fam.Groups, rec, false, 4, 0, 2, 1),
+				wideCover("groups", fam.Groups, rec, false, 40, 1),
 			},
 			traces: stdTraces("once", medium, 0.1, stdOpts)})})
 
@@ -213,8 +233,10 @@ func init() {
 		run: genericRun(stagePlan{
 			covers: []coverPlan{
 				randCover("lazy", small, rec, 60, 500, 0),
-				structCover("chain", fam.Chain, rec, false, 80, 0, 2, 0),
-				structCover("groups", fam.Groups, rec, false, 20, 0, 2, 0),
+				structCover("chain", fam.Chain, rec, false, 60, 0, 2, 0),
+				wideCover("chain", fam.Chain, rec, false, 250, 0),
+				structCover("groups", fam.Groups, rec, false, 15, 0, 2, 0),
+				wideCover("groups", fam.Groups, rec, false, 60, 0),
 			},
 			traces: stdTraces("lazy", medium, 0, stdOpts)})})
 
@@ -227,13 +249,14 @@ func init() {
 		run: genericRun(stagePlan{
 			covers: []coverPlan{
 				randCover("missing", tweak(small, func(f *fam.Features) { f.POpt = 0.45; f.Ctors = 3; f.Types = 4; f.PGroup = 0.1 }), recBoth, 60, 500, 1),
-				structCover("chain", fam.Chain, rec, false, 50, 0, 2, 1),
+				structCover("chain", fam.Chain, rec, false, 40, 0, 2, 1),
+				wideCover("chain", fam.Chain, recBoth, false, 300, 1),
 			},
 			traces: stdTraces("missing", tweak(medium, func(f *fam.Features) { f.POpt = 0.4; f.Types = 6 }), 0.1, stdOpts)})})
 
 	register(&propDef{id: "C05",
 		projection: "cycle verdicts of Provide and Invoke (three zones), IsCycleDetected, process survival, executions on a cycle",
-		kinds:      []string{"processcrash", "class.cycleflag"},
+		kinds:      []string{"processcrash", "class.cycleflag", "graph.hook"},
 		extra: func(k, d string) bool {
 			return strings.HasPrefix(k, "verdict.") && contains(d, "cycle")
 		},
@@ -250,9 +273,11 @@ func init() {
 					f.Decs = 1
 					f.PAs = 0
 				}), deferBoth, 30, 400, 0),
-				structCover("chain", fam.Chain, deferBoth, false, 20, 0, 2, 1),
+				structCover("chain", fam.Chain, deferBoth, false, 15, 0, 2, 1),
+				wideCover("chain", fam.Chain, deferBoth, false, 150, 0),
 			},
-			traces: stdTraces("cycle", tweak(medium, func(f *fam.Features) { f.Types = 3; f.PNamed = 0.05 }), 0.05, allOpts)})})
+			traces: stdTraces("cycle", tweak(medium, func(f *fam.Features) { f.Types = 3; f.PNamed = 0.05 }), 0.05, allOpts),
+			extra:  graphStage})})
 
 	register(&propDef{id: "C06",
 		projection: "state before/after a rejected Provide or Decorate (real versus real), model state after it, and every later observation of the history",
@@ -277,7 +302,8 @@ func init() {
 			covers: []coverPlan{
 				randCover("fault", small, recBoth, 40, 400, 2),
 				structCover("chain", fam.Chain, recBoth, true, 20, 0, 2, 2),
-				structCover("groups", fam.Groups, recBoth, false, 8, 0, 2, 1),
+				wideCover("chain", fam.Chain, recBoth, true, 200, 1),
+				structCover("groups", fam.Groups, recBoth, false, 3, 0, 2, 1),
 			},
 			traces: stdTraces("fault", medium, 0.25, stdOpts)})})
 
@@ -289,9 +315,11 @@ func init() {
 		},
 		run: genericRun(stagePlan{
 			covers: []coverPlan{
-				structCover("chain", fam.Chain, rec, false, 100, 0, 2, 0),
-				structCover("shadow", fam.Shadow, rec, false, 50, 0, 2, 0),
-				structCover("groups", fam.Groups, rec, false, 15, 0, 2, 0),
+				structCover("chain", fam.Chain, rec, false, 60, 0, 2, 0),
+				wideCover("chain", fam.Chain, rec, false, 300, 0),
+				structCover("shadow", fam.Shadow, rec, false, 30, 0, 2, 0),
+				wideCover("shadow", fam.Shadow, rec, false, 80, 0),
+				structCover("groups", fam.Groups, rec, false, 12, 0, 2, 0),
 				randCover("scopes", tweak(small, func(f *fam.Features) { f.Scopes = 3; f.Types = 2; f.PExport = 0.4; f.Decs = 0 }), rec, 40, 400, 0),
 			},
 			traces: stdTraces("scopes", tweak(medium, func(f *fam.Features) { f.Scopes = 4; f.PExport = 0.4 }), 0, stdOpts)})})
@@ -324,7 +352,8 @@ func init() {
 		},
 		run: genericRun(stagePlan{
 			covers: []coverPlan{
-				structCover("groups", fam.Groups, rec, false, 40, 0, 2, 0),
+				structCover("groups", fam.Groups, rec, false, 30, 0, 2, 0),
+				wideCover("groups", fam.Groups, rec, false, 120, 0),
 				randCover("groups-rand", tweak(small, groupy), rec, 60, 500, 0),
 			},
 			traces: stdTraces("groups", tweak(medium, groupy), 0, stdOpts)})})
@@ -334,7 +363,8 @@ func init() {
 		kinds:      []string{"args.soft", "exec.extra"},
 		run: genericRun(stagePlan{
 			covers: []coverPlan{
-				structCover("groups", fam.Groups, rec, false, 40, 0, 2, 0),
+				structCover("groups", fam.Groups, rec, false, 30, 0, 2, 0),
+				wideCover("groups", fam.Groups, rec, false, 120, 0),
 				randCover("soft-rand", tweak(small, func(f *fam.Features) { groupy(f); f.PSoft = 0.6 }), rec, 80, 500, 0),
 			},
 			traces: stdTraces("soft", tweak(medium, func(f *fam.Features) { groupy(f); f.PSoft = 0.6 }), 0, stdOpts)})})
@@ -347,9 +377,11 @@ func init() {
 		},
 		run: genericRun(stagePlan{
 			covers: []coverPlan{
-				structCover("chain", fam.Chain, rec, false, 100, 0, 2, 0),
-				structCover("shadow", fam.Shadow, rec, false, 40, 0, 2, 0),
-				structCover("groups", fam.Groups, rec, false, 15, 0, 2, 0),
+				structCover("chain", fam.Chain, rec, false, 60, 0, 2, 0),
+				wideCover("chain", fam.Chain, rec, false, 300, 0),
+				structCover("shadow", fam.Shadow, rec, false, 30, 0, 2, 0),
+				structCover("groups", fam.Groups, rec, false, 12, 0, 2, 0),
+				wideCover("groups", fam.Groups, rec, false, 60, 0),
 				randCover("dec-rand", tweak(small, decy), rec, 40, 400, 0),
 			},
 			traces: stdTraces("dec", tweak(medium, decy), 0, stdOpts)})})
@@ -416,7 +448,7 @@ func init() {
 		projection: "ProvideInfo / DecorateInfo / InvokeInfo entries (strings, counts, order), untouched on rejection, constructor ids",
 		kinds:      []string{"info"},
 		run: genericRun(stagePlan{
-			covers: []coverPlan{randCover("info", small, rec, 60, 400, 0)},
+			covers: []coverPlan{randCover("info", small, rec, 60, 400, 0), libCover("lib", rec, false, 8, 80, 0)},
 			traces: stdTraces("info", medium, 0, stdOpts),
 			sig:    true})})
 
@@ -424,7 +456,12 @@ func init() {
 		projection: "parsed DOT structure (clusters, result nodes, edges, dashed, group nodes), failure colouring, CanVisualizeError",
 		kinds:      []string{"viz"},
 		run: genericRun(stagePlan{
-			covers: []coverPlan{randCover("viz", small, rec, 60, 400, 1)},
+			covers: []coverPlan{
+				randCover("viz", small, rec, 50, 400, 1),
+				libCover("lib", recBoth, false, 10, 100, 2),
+				structCover("groups", fam.Groups, rec, false, 8, 0, 2, 1),
+				digraphCover("digraphs-req", "req", rec, 40, 600),
+			},
 			traces: stdTraces("viz", medium, 0.1, stdOpts)})})
 
 	register(&propDef{id: "C20",
@@ -434,9 +471,18 @@ func init() {
 			covers: []coverPlan{
 				randCover("callbacks", tweak(small, func(f *fam.Features) { f.PCb = 0.7 }), recBoth, 50, 500, 2),
 				structCover("chain", fam.Chain, recBoth, true, 20, 0, 2, 2),
-				structCover("groups", fam.Groups, recBoth, true, 8, 0, 2, 1),
+				structCover("groups", fam.Groups, recBoth, true, 6, 0, 2, 1),
+				libCover("lib", recBoth, true, 6, 60, 2),
 			},
 			traces: stdTraces("callbacks", tweak(medium, func(f *fam.Features) { f.PCb = 0.7 }), 0.25, recBoth)})})
 }
 
-func replaySpecial(def *propDef, f *Finding) int { return 2 }
+func replaySpecial(def *propDef, f *Finding) int {
+	switch f.Stage {
+	case "graph":
+		return replayGraph(f.Special)
+	case "sig":
+		return replaySig(def, f.Special)
+	}
+	return 2
+}
